@@ -44,9 +44,9 @@ const O_FORK: usize = 9;
 const O_ITER: usize = 10;
 const O_FMT: usize = 11;
 
-pub fn weights_for(prop: &str) -> [u32; 16] {
+pub fn weights_for(prop: &str) -> [u32; 17] {
     //            ins rep rem tak ret clr drn con ext frk itr fmt
-    let mut w = [16, 8, 8, 6, 3, 1, 2, 1, 4, 1, 2, 1, 0, 0, 0, 0];
+    let mut w = [16, 8, 8, 6, 3, 1, 2, 1, 4, 1, 2, 1, 0, 0, 0, 0, 0];
     match prop {
         "C07" => {
             w[O_FORK] = 0;
@@ -857,7 +857,8 @@ impl<'a> Engine<'a> {
         let hist = self.h.hist;
         let fam = F::NAME;
         let profile = self.cfg.profile;
-        self.cx.rep.absorb_violations("C02", &|| {
+        let mem_prop = crate::common::mem_prop(&self.cx.prop);
+        self.cx.rep.absorb_violations(mem_prop, &|| {
             let mut v = vec![format!("set history {} family={} N={} profile={}", hist, fam, N, profile)];
             v.extend(ops.iter().cloned());
             v
